@@ -1,9 +1,16 @@
-// C03: reconnection always resynchronises.
+// C02: state reloaded after a crash is complete, consistent and safe.
 package c02
 
 import (
+	"context"
+	"encoding/json"
+	"fmt"
 	"os"
+	"runtime"
+	"sort"
 	"strconv"
+	"strings"
+	"sync/atomic"
 	"testing"
 	"time"
 
@@ -11,7 +18,42 @@ import (
 	"github.com/lightningnetwork/lnd/verifmc/evid"
 )
 
+var ctxb = context.Background()
+
 func sat(s int64, extraMsat uint64) uint64 { return uint64(s)*1000 + extraMsat }
+
+var diskStates atomic.Int64
+
+// diskHook judges, once per distinct canonical state, the durable lists of both
+// parties read through a fresh handle (diskinv_test.go).
+func diskHook(w *chanmc.World) {
+	// terminal probes (side writers re-key the channel, live-object probes stop half-way
+	// through a step) leave the world in a state no link would continue from
+	if h := w.Hist(); len(h) > 0 && (strings.HasPrefix(h[len(h)-1], "side>") || strings.HasPrefix(h[len(h)-1], "probe>")) {
+		return
+	}
+	for i := 0; i < 2; i++ {
+		var fs []diskFinding
+		func() {
+			defer func() {
+				if v := recover(); v != nil {
+					fs = append(fs, diskFinding{"disk:read-panic", fmt.Sprintf("reading the durable state panicked: %v", v)})
+				}
+			}()
+			ident := w.Chan(i).State().IdentityPub
+			chans, err := w.DB(i).ChannelStateDB().FetchOpenChannels(ident)
+			if err != nil || len(chans) != 1 {
+				fs = append(fs, diskFinding{"disk:unreadable", fmt.Sprintf("FetchOpenChannels: %d channels, %v", len(chans), err)})
+				return
+			}
+			fs = diskInvariants(string(rune('A'+i)), chans[0])
+		}()
+		for _, f := range fs {
+			w.Violate(f.sig, f.what)
+		}
+	}
+	diskStates.Add(1)
+}
 
 func spaces(thorough bool) []chanmc.Space {
 	var out []chanmc.Space
@@ -33,38 +75,82 @@ func spaces(thorough bool) []chanmc.Space {
 				Script: []chanmc.Intent{{By: 1, Amt: sat(45000, 3), Fate: "settle"}}}})
 		}
 	}
+	// Kind pair of two pipelined removals in one direction (shape b): which two update kinds
+	// share the durable lists (unsigned-acked, remote-unsigned-local, commit-diff updates) and
+	// in which order. Rotated over the channel types; thorough adds every ordered pair on legacy.
+	kinds := []string{"settle", "fail", "malformed"}
+	pair := func(n int) (string, string) { return kinds[n%3], kinds[(n/3+n)%3] }
 	for ti, typ := range types {
 		th := chanmc.Thresholds(typ, 6000, 200, 1300)
 		openerB := ti%2 == 0
 		// Shapes (every one with a crash = both sides reload after every state-machine call):
 		//  a: one HTLC each way (fail / settle), a second crash during resynchronisation
-		//  b: two HTLCs in the same direction, both settled (pipelined removals)
+		//  b: two HTLCs in the same direction, removed with the kind pair of this type
+		//     (legacy settle+settle, lease fail+malformed, taproot malformed+fail, ...)
 		//  c: two consecutive fee updates by the opener plus one HTLC the other way
 		//  d: fee update + malformed failure
 		//  e: two consecutive fee updates, no HTLC
 		a := chanmc.Space{Dev: -1, P: chanmc.Params{Type: typ, OpenerB: openerB, MaxCuts: 2, CutOnlyInSync: !thorough, CrashPoints: true, Script: []chanmc.Intent{
 			{By: 0, Amt: sat(th[0], 0), Fate: "fail"}, {By: 1, Amt: sat(th[2]-1, 999), Fate: "settle"},
 		}}}
+		k1, k2 := pair(4 * ti)
 		b := chanmc.Space{Dev: -1, P: chanmc.Params{Type: typ, OpenerB: openerB, MaxCuts: 1, CrashPoints: true, Script: []chanmc.Intent{
-			{By: 0, Amt: sat(35000, 0), Fate: "settle"}, {By: 0, Amt: sat(th[1]+1, 0), Fate: "settle"},
+			{By: 0, Amt: sat(35000, 0), Fate: k1}, {By: 0, Amt: sat(th[1]+1, 0), Fate: k2},
 		}}}
-		c := chanmc.Space{Dev: -1, P: chanmc.Params{Type: typ, OpenerB: openerB, MaxCuts: 1, CrashPoints: true, Fees: []int64{6600, 5400},
+		// Second fee value of the two-fee shapes (base rate is 6000): a NEW rate (5400) or a
+		// REVERT to the rate already in use on the commitments (6000) - "same rate as
+		// before" is singled out only implicitly by the restore code and by the fee
+		// coalescing of the update log, so it is an alphabet value. Rotated over the channel
+		// types so that c and e of one type differ. (A REPEAT of the first update, {6600, 6600},
+		// cannot be used: chanmc labels a retransmitted update_fee by its VALUE, so two equal
+		// values make its own retransmission reference model report fee1 for fee0.)
+		fee2 := []int64{6000, 5400}
+		c := chanmc.Space{Dev: -1, P: chanmc.Params{Type: typ, OpenerB: openerB, MaxCuts: 1, CrashPoints: true, Fees: []int64{6600, fee2[(ti+1)%2]},
 			Script: []chanmc.Intent{{By: 0, Amt: sat(45000, 0), Fate: "settle"}}}}
 		sc := []chanmc.Intent{{By: 1, Amt: sat(40000, 7), Fate: "malformed"}}
 		if thorough {
 			sc = append(sc, chanmc.Intent{By: 0, Amt: sat(th[1], 0), Fate: "settle"})
 		}
 		d := chanmc.Space{Dev: -1, P: chanmc.Params{Type: typ, OpenerB: !openerB, MaxCuts: 1, CrashPoints: true, Fees: []int64{7500}, Script: sc}}
-		e := chanmc.Space{Dev: -1, P: chanmc.Params{Type: typ, OpenerB: !openerB, MaxCuts: 1, CrashPoints: true, Fees: []int64{6600, 5400}}}
+		e := chanmc.Space{Dev: -1, P: chanmc.Params{Type: typ, OpenerB: !openerB, MaxCuts: 1, CrashPoints: true, Fees: []int64{6600, fee2[ti%2]}}}
+		// fees-only spaces are tiny (~350 states): every type gets both second values
+		var eAll []chanmc.Space
+		for k, f2 := range fee2 {
+			if f2 != fee2[ti%2] {
+				eAll = append(eAll, chanmc.Space{Dev: -1, P: chanmc.Params{Type: typ, OpenerB: (k%2 == 0) == openerB, MaxCuts: 1, CrashPoints: true, Fees: []int64{6600, f2}}})
+			}
+		}
 		switch {
 		case thorough:
-			out = append(out, a, b, c, d, e)
+			out = append(out, e, d, b, c, a)
 		case ti == 0:
-			out = append(out, a, d, e)
+			out = append(out, e, d, a)
 		case ti == 1:
-			out = append(out, b, c)
+			out = append(out, e, b, c)
 		default:
-			out = append(out, b, d, e)
+			out = append(out, e, d, b)
+		}
+		out = append(out, eAll...)
+	}
+	if thorough {
+		th := chanmc.Thresholds("legacy", 6000, 200, 1300)
+		for n := 0; n < 9; n++ {
+			k1, k2 := kinds[n/3], kinds[n%3]
+			if k1 == "settle" && k2 == "settle" {
+				continue // legacy's own shape b
+			}
+			out = append(out, chanmc.Space{Dev: -1, P: chanmc.Params{Type: "legacy", OpenerB: n%2 == 1, MaxCuts: 1, CrashPoints: true, Script: []chanmc.Intent{
+				{By: 0, Amt: sat(35000, 0), Fate: k1}, {By: 0, Amt: sat(th[1]+1, 0), Fate: k2},
+			}}})
+		}
+		// three removals of three kinds plus a fee update and an HTLC the other way: lists of
+		// length up to 4, every execution within two deviations of the eager schedule
+		for _, ob := range []bool{false, true} {
+			out = append(out, chanmc.Space{Dev: 2, P: chanmc.Params{Type: "legacy", OpenerB: ob, MaxCuts: 1, CrashPoints: true, Fees: []int64{6450},
+				Script: []chanmc.Intent{
+					{By: 0, Amt: sat(41000, 1), Fate: "settle"}, {By: 0, Amt: sat(42000, 2), Fate: "fail"}, {By: 0, Amt: sat(43000, 3), Fate: "malformed"},
+					{By: 1, Amt: sat(44000, 4), Fate: "settle"},
+				}}})
 		}
 	}
 	// Every channel type, cheaply: the eager schedule of a 1+1-HTLC + fee-update
@@ -77,13 +163,119 @@ func spaces(thorough bool) []chanmc.Space {
 			}}})
 		}
 	}
+	// Cheapest spaces first (stable), by the state counts measured for each class of space in
+	// this harness: on a loaded machine the deadline then cuts depth in the few large
+	// full-interleaving spaces instead of dropping whole shapes or the all-types breadth pass.
+	cost := func(sp chanmc.Space) int {
+		n, f, c := len(sp.P.Script), len(sp.P.Fees), sp.P.MaxCuts
+		switch {
+		case sp.Dev >= 0 && n <= 2:
+			// all-types breadth pass: 3744 states with B as opener, 4348 with A
+			if sp.P.OpenerB {
+				return 3744
+			}
+			return 4348
+		case sp.Dev >= 0:
+			return 38000 // three removals + fee + one HTLC back, two deviations
+		case n == 0:
+			return 350 // fee updates only
+		case c == 0:
+			return 700 // side-writer space
+		case n == 1 && f <= 1:
+			return 2100 // d
+		case n == 2 && f == 0 && c == 1:
+			return 4167 // b
+		case n == 1:
+			return 12400 // c
+		case n == 2 && f == 0:
+			return 17000 * c / 2 // a (two cuts)
+		default:
+			return 30000 // thorough-only d with two HTLCs
+		}
+	}
+	sort.SliceStable(out, func(i, j int) bool { return cost(out[i]) < cost(out[j]) })
+	for i := range out {
+		out[i].OnState = diskHook
+	}
 	return out
+}
+
+// replayChanmc re-executes a chanmc history with this harness's hooks installed
+// (chanmc.Replay does not install hooks).
+func replayChanmc(run *evid.Run, p chanmc.Params, hist []string) error {
+	report := func(sig, what string, h []string, pp chanmc.Params) {
+		fmt.Printf("INFO   !! %s: %s\n", sig, what)
+		run.Violation(pp.Type+":"+sig, what, map[string]any{"params": pp, "history": h})
+	}
+	w, err := chanmc.New(p, report, nil)
+	if err != nil {
+		return err
+	}
+	defer w.Close()
+	fmt.Printf("INFO replaying %d steps on %s\n", len(hist), p.Name())
+	diskHook(w)
+	for i, a := range hist {
+		fmt.Printf("INFO step %d: %s   (enabled: %v)\n", i, a, w.Enabled())
+		if err := w.Do(a); err != nil {
+			return fmt.Errorf("step %d (%s): %w", i, a, err)
+		}
+		fmt.Printf("INFO    -> %s\n", w.Key())
+		diskHook(w)
+	}
+	if len(w.Enabled()) == 0 {
+		w.Terminal()
+	}
+	return nil
+}
+
+func replay(run *evid.Run, path string) error {
+	b, err := os.ReadFile(path)
+	if err != nil {
+		return err
+	}
+	var doc struct {
+		Replay struct {
+			Params  *chanmc.Params `json:"params"`
+			History []string       `json:"history"`
+			Lattice *latCfg        `json:"lattice"`
+			Static  *statPoint     `json:"static"`
+		} `json:"replay"`
+	}
+	if err := json.Unmarshal(b, &doc); err != nil {
+		return err
+	}
+	switch {
+	case doc.Replay.Lattice != nil:
+		cfg := *doc.Replay.Lattice
+		fmt.Printf("INFO replaying payload-lattice point %s cut=%d cut2=%d\n", cfg.name(), cfg.Cut, cfg.Cut2)
+		runLat(cfg, &latStats{}, func(sig, what string) {
+			fmt.Printf("INFO   !! %s: %s\n", sig, what)
+			run.Violation(sig, what, map[string]any{"lattice": cfg})
+		}, true)
+	case doc.Replay.Static != nil:
+		pt := *doc.Replay.Static
+		fmt.Printf("INFO replaying channel-record point %s initiator=%v variant=%d\n", pt.Name, pt.Initiator, pt.Variant)
+		base := os.Getenv("VERIF_SCRATCH")
+		if base == "" {
+			base = os.TempDir()
+		}
+		var n atomic.Int64
+		runStatPoint(pt, base, 0, func(sig, what string) {
+			fmt.Printf("INFO   !! %s: %s\n", sig, what)
+			run.Violation(sig, what, map[string]any{"static": pt})
+		}, &n, true)
+	case doc.Replay.Params != nil:
+		return replayChanmc(run, *doc.Replay.Params, doc.Replay.History)
+	default:
+		return fmt.Errorf("replay artefact has no params/lattice/static section")
+	}
+	return nil
 }
 
 func TestC02(t *testing.T) {
 	run := evid.Start("C02", "fault_enumeration")
 	if rp := os.Getenv("VERIF_REPLAY"); rp != "" {
-		if err := chanmc.Replay(run, rp); err != nil {
+		if err := replay(run, rp); err != nil {
 			t.Fatalf("replay: %v", err)
 		}
 		os.Exit(run.Finish(map[string]any{"evaluations": 1, "distinct_nontrivial": 2, "states": 1, "transitions": 1, "traces_validated_against_impl": 1, "samples": []any{rp}}))
@@ -97,9 +289,49 @@ func TestC02(t *testing.T) {
 			budget = time.Duration(n) * time.Second
 		}
 	}
-	agg := chanmc.RunSpaces(run, spaces(run.Thorough()), time.Now().Add(budget), 0)
-	cov := agg.Coverage("crash point = after every state-machine call (each call performs at most one kvdb write transaction: measured per step and reported as durable_writes_table; a step with W>=2 writes would add W-1 interior crash points automatically); at each crash both in-memory channels are discarded and rebuilt from disk; oracles: reload succeeds without panic, reloaded state equals the pre-crash disk-mirrored projection, reloaded local height > every released revocation height, resynchronisation and the rest of the schedule complete with all C01 oracles; built on C01 plus the action `cut` at every state (both wires dropped having delivered exactly the consumed prefixes, both sides reload from disk with FetchOpenChannels+NewLightningChannel, both send channel_reestablish); oracles: ProcessChanSyncMsg returns no error, its message list equals the reference model of undelivered revoke_and_ack / commitment_signed(+covered updates) in original relative order, every retransmission is accepted, C01 oracles on every later state, mirror + exactly-once at terminal states")
-	run.Assumptions = append(run.Assumptions, "kvdb transactions are atomic; a cut discards undelivered suffixes (FIFO wires)")
+	only := os.Getenv("VERIF_C02_ONLY") // development aid: static | lattice | chanmc
+	start := time.Now()
+	deadline := start.Add(budget)
+	workers := runtime.GOMAXPROCS(0)
+	if workers > 16 {
+		workers = 16
+	}
+	// The two harness-owned families run first with a bounded share of the budget.
+	var statCov, latCov map[string]any
+	if only == "" || only == "static" {
+		statCov = runStatic(run, start.Add(budget/10))
+	}
+	if only == "" || only == "lattice" {
+		latCov = runLattice(run, run.Thorough(), start.Add(budget*3/10), workers)
+	}
+	sp := spaces(run.Thorough())
+	if only != "" && only != "chanmc" {
+		sp = sp[:1]
+	}
+	agg := chanmc.RunSpaces(run, sp, deadline, 0)
+	cov := agg.Coverage("crash point = after every state-machine call (each call performs at most one kvdb write transaction: measured per step and reported as durable_writes_table; a step with W>=2 writes would add W-1 interior crash points automatically); at each crash both in-memory channels are discarded and rebuilt from disk; oracles: reload succeeds without panic, reloaded state equals the pre-crash disk-mirrored projection, reloaded local height > every released revocation height, resynchronisation and the rest of the schedule complete with all C01 oracles; built on C01 plus the action `cut` at every state (both wires dropped having delivered exactly the consumed prefixes, both sides reload from disk with FetchOpenChannels+NewLightningChannel, both send channel_reestablish); oracles: ProcessChanSyncMsg returns no error, its message list equals the reference model of undelivered revoke_and_ack / commitment_signed(+covered updates) in original relative order, every retransmission is accepted, C01 oracles on every later state, mirror + exactly-once at terminal states; in every distinct state the durable lists read through a fresh handle (forwarding packages, unsigned-acked, remote-unsigned-local, commit-diff updates) satisfy the five range/exactly-once invariants of diskinv_test.go; plus the payload lattice (lattice_test.go) and the channel-record lattice (static_test.go), see their `rule`")
+	cov["durable_list_states_checked"] = diskStates.Load()
+	exh := cov["exhaustive"] == true
+	caps, _ := cov["caps_hit"].([]string)
+	if latCov != nil {
+		cov["payload_lattice"] = latCov
+		if latCov["exhaustive"] != true {
+			exh = false
+			caps = append(caps, fmt.Sprintf("deadline in payload lattice (%v of %v runs)", latCov["runs"], latCov["runs_enumerated"]))
+		}
+		cov["evaluations"] = cov["evaluations"].(int64) + latCov["steps_on_impl"].(int64)
+	}
+	if statCov != nil {
+		cov["channel_record_lattice"] = statCov
+		if statCov["exhaustive"] != true {
+			exh = false
+			caps = append(caps, fmt.Sprintf("deadline in channel-record lattice (%v of %v points)", statCov["points_done"], statCov["points"]))
+		}
+		cov["evaluations"] = cov["evaluations"].(int64) + statCov["loads_compared"].(int64)
+	}
+	cov["exhaustive"] = exh
+	cov["caps_hit"] = caps
+	run.Assumptions = append(run.Assumptions, "kvdb transactions are atomic; a cut discards undelivered suffixes (FIFO wires)", "no forwarding package is ever removed in these worlds (no switch), so the packages on disk are the complete hand-over history")
 	if code := run.Finish(cov); code != 0 {
 		os.Exit(code)
 	}
